@@ -135,7 +135,10 @@ def module_case(arg):
             out["distinct"].append(hash((arg["idx"], si, li, exp["could"], exp["try"])))
             if problems:
                 mech = "write-differs:" + problems[0][0]
-                if exp["signed_enum_negative"] or (leaf["kind"] == "enum" and eff < 0):
+                if exp["signed_enum_negative"] or (leaf["kind"] == "enum" and eff < 0) or \
+                        cppsuite.signed_enum_taint(m, s, params, data):
+                    # ... or some other field of the structure (a tag deciding the leaf's presence) is a narrow signed
+                    # enum holding a negative value, which the implementation reads zero-extended
                     mech = "signed-enum-narrow-field-zero-extended"
                 elif leaf.get("target_kind") == "bcd" and leaf["kind"] == "vint":
                     cont = 8
